@@ -6,14 +6,19 @@ package formatter
 // derivation, so the oracle is written over the text itself.
 //
 //	line 0   2024-01-15 <letters>
-//	line 1   <indent> + n arbitrary bytes (printable ASCII and tab)      - wherever a posting may stand
-//	line 2       c:d  1 USD                                              - a posting after it
+//	line 1   <indent> + P + n arbitrary bytes (printable ASCII and tab), P = "" or "a:b"
+//	line 2       c:d  1 USD                                  - a posting after it
 //	line 3   m arbitrary bytes (top level, never a posting)
 //
+// Three shapes, so that the costs add up instead of multiplying: arbitrary indented line (m = 0),
+// arbitrary text after an account (m = 0), arbitrary top-level line after a well-formed
+// transaction (line 1 = "a:b  2 USD").
+//
 // Decided: lines 0 and 3 change only by loss of trailing blanks; line 2 keeps its meaning; on line
-// 1 nothing but blanks is added or removed (the sequence of non-blank bytes is the same) - no
-// display format is declared and the bytes cannot hold a quoted commodity's closing quote plus
-// a number unless n >= 4; the syntax tree and the syntax diagnostics are the same after formatting.
+// 1 nothing is added or removed except blanks, a redundant plus sign, an empty comment marker and
+// a missing closing bracket and commodity quotes (c04Core; no display format is declared, so numbers are re-emitted
+// as written); the syntax tree and the
+// syntax diagnostics are the same after formatting.
 
 import (
 	"strings"
@@ -27,10 +32,16 @@ func init() {
 	zzverif.Register("VerifC04ArbitraryLong", VerifC04ArbitraryLong)
 }
 
-func c04NonBlank(s string) string {
+// c04Core: the line without blanks and without the bytes that formatting may legitimately add or
+// drop while the parser reads the same thing: a redundant plus sign, the marker of an empty
+// inline comment, the closing bracket that the parser does not insist on, the quotes of a
+// commodity (whether a symbol survives without its quotes is decided by comparing the trees).
+func c04Core(s string) string {
 	var sb strings.Builder
 	for i := 0; i < len(s); i++ {
-		if !fIsBlank(s[i]) {
+		switch s[i] {
+		case ' ', '\t', '+', ';', ')', ']', '"':
+		default:
 			sb.WriteByte(s[i])
 		}
 	}
@@ -39,20 +50,26 @@ func c04NonBlank(s string) string {
 
 func verifC04Arbitrary(maxN, maxM int) {
 	any := zzverif.Printable("") + "\t"
-	n := 1 + zzverif.Choice("n", maxN)
-	m := zzverif.Choice("m", maxM+1)
-	ind := fPick("ind", []string{"  ", "\t", "      "})
-	t1 := zzverif.Text("t", any, n)
-	t3 := zzverif.Text("u", any, m)
-	// line 3 is a top-level line of arbitrary text: it does not begin with a blank, and the
-	// constructs that G excludes at top level (DESIGN §4.2: periodic / auto transactions, a date
-	// that would open another transaction) are not meant here
-	if m > 0 {
+	ind := fPick("ind", []string{"  ", "\t"})
+	var t1, t3 string
+	n := 0
+	switch zzverif.Choice("shape", 3) {
+	case 0:
+		n = 1 + zzverif.Choice("n", maxN)
+		t1 = zzverif.Text("t", any, n)
+	case 1:
+		n = 1 + zzverif.Choice("n", maxN)
+		t1 = "a:b" + zzverif.Text("t", any, n)
+	default:
+		t1 = "a:b  2 USD"
+		m := 1 + zzverif.Choice("m", maxM)
+		t3 = zzverif.Text("u", any, m)
+		// a top-level line does not begin with a blank
 		zzverif.Assume(!fIsBlank(t3[0]))
 	}
 	src := "2024-01-15 " + fLower("d", 2) + "\n" + ind + t1 + "\n    c:d  1 USD\n" + t3 + "\n"
 	zzverif.Observe("src", src)
-	opts := fOptionsMenu(2)
+	opts := fOptionsMenu(1)
 
 	j0, e0 := parser.Parse(src)
 	edits := FormatDocumentWithOptions(j0, src, nil, opts)
@@ -70,7 +87,7 @@ func verifC04Arbitrary(maxN, maxM int) {
 	// arbitrary bytes "the part of the line that is no construct of the grammar" has no definition
 	// other than the parser's own, and the property itself speaks of "text the parser failed to
 	// understand".
-	rejected := false
+	rejected, dBlank := false, false
 	for _, e := range e0 {
 		if e.Pos.Line == 2 {
 			for i := range j0.Transactions {
@@ -82,6 +99,39 @@ func verifC04Arbitrary(maxN, maxM int) {
 			}
 		}
 	}
+	// Known class, by the shape of the input: line 1 consists of blanks only. The parser does not
+	// take such a line for the end of the transaction; the formatter trims it to an empty line,
+	// which is the end of the transaction: the posting on line 2 is lost.
+	if fTrimBlanks(t1) == "" {
+		zzverif.Reach("C04.arbitrary.blank")
+		if zzverif.Known("c04-whitespace-line-inside-transaction-trimmed") {
+			zzverif.Reach("kf:c04-whitespace-line-inside-transaction-trimmed")
+			return
+		}
+	}
+	// Known class, by the shape of the input: a top-level line "D" whose trailing blanks the parser
+	// folds into the directive - a tab after "D <digits>" is taken for the commodity (Format
+	// becomes "<digits> "), a blank after "D" + opening quote is part of the unterminated symbol.
+	// The formatter trims the blanks and the directive reads differently.
+	if m := len(t3); m >= 3 && t3[0] == 'D' {
+		digits, blanks := true, true
+		for i := 1; i < m-1; i++ {
+			digits = digits && t3[i] >= '0' && t3[i] <= '9'
+		}
+		for i := 2; i < m; i++ {
+			blanks = blanks && fIsBlank(t3[i])
+		}
+		if (digits && t3[m-1] == '\t') || (t3[1] == '"' && blanks) {
+			dBlank = true
+		}
+	}
+	if dBlank {
+		zzverif.Reach("C04.arbitrary.dblank")
+		if zzverif.Known("c04-d-directive-trailing-blank-significant") {
+			zzverif.Reach("kf:c04-d-directive-trailing-blank-significant")
+			return
+		}
+	}
 	if rejected {
 		zzverif.Reach("C04.arbitrary.rejected")
 		if zzverif.Known("c04-posting-unparsed-tail-deleted") {
@@ -89,9 +139,7 @@ func verifC04Arbitrary(maxN, maxM int) {
 			return
 		}
 	}
-	// an inline comment that consists of blanks and ends in a tab: the blanks after the ';' are
-	// comment text for the parser, layout for this oracle - same text, nothing to decide
-	zzverif.Assert(c04NonBlank(srcLines[1]) == c04NonBlank(outLines[1]), "C04: text of an indented line is deleted or invented")
+	zzverif.Assert(c04Core(srcLines[1]) == c04Core(outLines[1]), "C04: text of an indented line is deleted or invented")
 	for _, i := range []int{0, 3} {
 		s, o := srcLines[i], outLines[i]
 		zzverif.Assert(len(o) <= len(s) && o == s[:len(o)], "C04: a line that is not a posting is rewritten")
@@ -102,8 +150,9 @@ func verifC04Arbitrary(maxN, maxM int) {
 	j1, e1 := parser.Parse(out)
 	fSameJournal(j0, j1)
 	fSameErrors(e0, e1)
+	zzverif.Assert(!zzverif.Known(fCheckWide) || !(rejected || dBlank || fTrimBlanks(t1) == ""), "harness: a class predicate of C04 holds but nothing is violated")
 	zzverif.Reach("C04.arbitrary.end")
 }
 
-func VerifC04Arbitrary()     { verifC04Arbitrary(3, 1) }
-func VerifC04ArbitraryLong() { verifC04Arbitrary(4, 2) }
+func VerifC04Arbitrary()     { verifC04Arbitrary(2, 2) }
+func VerifC04ArbitraryLong() { verifC04Arbitrary(3, 3) }
